@@ -362,6 +362,8 @@ def run(ctx):
     rule_leader_assigns_all(ctx)
     rule_stale_drop(ctx)
     rule_subscribed_only(ctx)
+    from .common import rule_timeouts_verbatim
+    rule_timeouts_verbatim(ctx, "prepare-before-join", "aiokafka.consumer.consumer.AIOKafkaConsumer")
     from .common import rule_instance_state
     rule_instance_state(ctx, ("aiokafka.consumer.",))
     rep.nd("pairwise disjointness across members (depends on the assignors' output, C14)")
